@@ -200,6 +200,93 @@ def _run_split(model, rd):
     return fn, ret, cap, env, pre_src
 
 
+def _closure_enumeration(model, ff):
+    """The closure loop works on integer arrays through indexing and
+    comparisons only: its outcome depends on the incidence structure alone.
+    It is interpreted on every way two cells can share a facet (9 slot
+    pairs), every chain and every closed ring of three cells, with every
+    non-empty marked set; the result must mark all facets of marked cells
+    and satisfy, for every cell, 'facet 0 or 1 marked => facet 2 marked'."""
+    from itertools import product
+    from .. import nlite
+    from ..nlite import NArr
+
+    def structures():
+        S = range(3)
+        for a, b in product(S, S):
+            yield 2, [(0, a, 1, b)]
+        for a, b, c, d in product(S, S, S, S):
+            if b == c:
+                continue
+            yield 3, [(0, a, 1, b), (1, c, 2, d)]
+        for a, b, c, d, e, f in product(S, repeat=6):
+            if b == c or d == e or f == a:
+                continue
+            yield 3, [(0, a, 1, b), (1, c, 2, d), (2, e, 0, f)]
+    n = 0
+    for ncell, shared in structures():
+        t2f = [[None] * ncell for _ in range(3)]
+        nf = 0
+        for (c1, s1, c2, s2) in shared:
+            t2f[s1][c1] = nf
+            t2f[s2][c2] = nf
+            nf += 1
+        for c in range(ncell):
+            for k in range(3):
+                if t2f[k][c] is None:
+                    t2f[k][c] = nf
+                    nf += 1
+        for mask in range(1, 2 ** ncell):
+            marked = [c for c in range(ncell) if mask >> c & 1]
+            n += 1
+            m = Obj(None, {"t2f": NArr([list(r) for r in t2f]),
+                           "facets": NArr([[0] * nf, [0] * nf])})
+            try:
+                r = Interp(model, call_hook=nlite.hook).call(
+                    ff, [m, NArr(marked)], {})
+            except Raised as e:
+                return False, f"raises {e.what} for t2f={t2f}, marked={marked}"
+            except Unsupported as e:
+                raise AnalysisError(f"_adaptive_find_facets outside "
+                                    f"grammar: {e}")
+            F = [int(x) for x in r.data]
+            if len(F) != nf or any(v not in (0, 1) for v in F):
+                return False, f"result {F} for t2f={t2f}"
+            for c in marked:
+                if not all(F[t2f[k][c]] for k in range(3)):
+                    return False, (f"marked cell {c} keeps an unmarked "
+                                   f"facet (t2f={t2f}, marked={marked}, "
+                                   f"facets={F})")
+            for c in range(ncell):
+                if (F[t2f[0][c]] or F[t2f[1][c]]) and not F[t2f[2][c]]:
+                    return False, (f"cell {c} ends with facet 0 or 1 marked "
+                                   f"but not its reference facet 2 "
+                                   f"(t2f={t2f}, marked={marked}, "
+                                   f"facets={F})")
+            # nothing is marked without a reason: a facet is marked only
+            # if it belongs to a marked cell or is facet 2 of a cell with
+            # a marked facet, transitively - checked as: the minimal
+            # closed set containing the marked cells' facets
+            G = [0] * nf
+            for c in marked:
+                for k in range(3):
+                    G[t2f[k][c]] = 1
+            changed = True
+            while changed:
+                changed = False
+                for c in range(ncell):
+                    if (G[t2f[0][c]] or G[t2f[1][c]]) and not G[t2f[2][c]]:
+                        G[t2f[2][c]] = 1
+                        changed = True
+            if F != G:
+                return False, (f"marks {F} differ from the least closed "
+                               f"set {G} (t2f={t2f}, marked={marked})")
+    return True, (f"{n} (incidence structure, marked set) cases of two and "
+                  f"three cells: all facets of marked cells marked, the "
+                  f"result is the least set closed under 'facet 0 or 1 "
+                  f"marked => facet 2 marked'")
+
+
 def _templates(model, rep):
     R1, R2, R3 = "C13-R1", "C13-R2", "C13-R3"
     rd = load_refdoms(model)["RefTri"]
@@ -265,23 +352,16 @@ def _templates(model, rep):
     ff = model.cls(TRI, "MeshTri1").methods.get("_adaptive_find_facets")
     if ff is None:
         raise AnalysisError("_adaptive_find_facets not found")
-    s = src(ff.node)
-    wl = [n for n in walk_no_nested(ff.node) if isinstance(n, ast.While)]
-    okc = (len(wl) == 1
-           and "t2facets[2, t2facets[0] + t2facets[1] > 0] = 1" in s
-           and "facets[m.t2f[t2facets == 1]] = 1" in src(wl[0])
-           and "t2facets = facets[m.t2f]" in src(wl[0])
-           and "np.count_nonzero(facets) - prev_nnz > 0" in src(wl[0].test))
+    okc, why = _closure_enumeration(model, ff)
     if okc:
-        rep.ok(R1, "closure", "loop marks local facet 2 whenever facet 0 or "
-               "1 is marked, writes the marks back globally and repeats "
-               "until no facet is added")
+        rep.ok(R1, "closure", why)
     else:
         rep.fail(R1, FT, ff.short(), "closure",
-                 "the facet-marking loop does not establish 'facet 0 or 1 "
-                 "marked implies the reference facet 2 marked' to a "
-                 "fixpoint: cells can reach the templates with a pattern "
-                 "none of them handles", ff.lineno)
+                 f"the facet-marking loop does not establish 'every facet "
+                 f"of a marked cell is marked' and 'facet 0 or 1 marked "
+                 f"implies the reference facet 2 marked' - cells can reach "
+                 f"the templates with a pattern none of them handles: "
+                 f"{why}", ff.lineno)
     # R2: geometry per template
     for mk in order:
         m = masks[mk]
